@@ -288,6 +288,18 @@ def check_slots(case):
         env.parse(pre)
     del calls[:]
     r = env.parse(text)
+    accepted = r['error'] is None and bool(calls)
+    if mode == 'simple':
+        # the same list written with each of the other two separators: accepted or rejected alike, and the same arguments
+        for other in SEPS:
+            if other == sep:
+                continue
+            env3, calls3 = rec_env()
+            r3 = env3.parse('REC(%s)' % other.join(slots))
+            acc3 = r3['error'] is None and bool(calls3)
+            if acc3 != accepted or (accepted and not same_value(calls3, calls)):
+                raise Violation('the argument list %r is %s with %r (%r, calls %r) but %s with %r (%r, calls %r)' % (
+                    slots, 'accepted' if accepted else 'rejected', sep, r, calls, 'accepted' if acc3 else 'rejected', other, r3, calls3), enc([accepted, calls]), enc([acc3, calls3]))
     if r['error'] is not None:
         raise Skip('rejected')
     if not calls:
@@ -359,7 +371,7 @@ LAWS = [
         rule='generated formula with calls (incl. omitted slots) and arrays rendered with , ; and \\ as separator: identical outcome, call log and events'),
     Law('slots', check_slots, enumerate=enum_slots, exhaustive=True, shards=(4, 8),
         classes=lambda c: ('mode:' + c['mode'],),
-        rule='every separator x n = 1..6 slots x every present/absent pattern (378 simple texts; compound arguments and nesting up to n = 4 in quick, all in thorough): an accepted call passes exactly n arguments (0 for the empty call), blanks in absent slots, values in order'),
+        rule='every separator x n = 1..6 slots x every present/absent pattern (378 simple texts; compound arguments and nesting up to n = 4 in quick, all in thorough): an accepted call passes exactly n arguments (0 for the empty call), blanks in absent slots, values in order; a simple list is accepted or rejected alike, with the same arguments, in all three separator styles'),
     Law('arrays', check_array, strategy=array_case(), quick=2000, thorough=60000, shards=(4, 8),
         classes=lambda c: ('rows%d' % len(c['rows']), 'sep:' + c['sep']), required=('rows1', 'rows2', 'sep:,', 'sep:;', 'sep:\\'),
         nontrivial=lambda c: len(c['rows']) == 2 or len(c['rows'][0]) >= 2,
